@@ -79,6 +79,7 @@ var (
 	runsF   = flag.Int("runs", 0, "override number of runs")
 	secsF   = flag.Int("secs", 0, "override thorough seconds")
 	noMin   = flag.Bool("nomin", false, "skip minimisation")
+	noAuto  = flag.Bool("noauto", false, "the auto-yield worker is not available (it could not be built against this tree)")
 	scratch string
 )
 
@@ -97,6 +98,9 @@ func main() {
 	if !ok {
 		fmt.Fprintln(os.Stderr, "driver: unknown property", *prop)
 		os.Exit(2)
+	}
+	if *noAuto {
+		cfg.auto = false
 	}
 	if *replayF != "" {
 		os.Exit(doReplay(cfg))
@@ -671,6 +675,7 @@ func doCheck(cfg propCfg) int {
 		"builtins_never":       missing(allBuiltins, a.funcs),
 		"workers":              *workers,
 		"auto_yield_runs":      a.autoRuns,
+		"auto_yield_worker":    map[bool]string{true: "built and used", false: "not used (no auto mode for this check, or it could not be built against this tree)"}[cfg.auto],
 		"explore_wall_s":       exploreWall,
 		"real_components":      []string{"jsonata (Compile, Eval, EvalBytes, registries, evaluator, callables)", "jparse", "jlib", "jlib/jxpath", "jtypes", "Go runtime maps/reflect/encoding/json/regexp"},
 		"stubbed_components":   stubs(cfg),
